@@ -69,7 +69,8 @@ def potential_coeffs(kind, param, nq, qdeg, ncr, rdeg, Tr, rpts, seed):
 
 
 def work(item):
-    path, qdeg, rdeg, nq, ncr, pot, param, dt, scheme, nul, canary = item
+    path, qdeg, rdeg, nq, ncr, pot, param, dt, scheme, nul, canary = item[:11]
+    pre_dts = item[11] if len(item) > 11 else ()       # steps taken before on the SAME object (its buffers are reused)
     res = H.worker_result()
     m = dist.mods()
     adv = H.repo_import('pygyro.advection.advection')
@@ -105,6 +106,11 @@ def work(item):
         f = dist.symbolic_field('f', (len(qpts), len(rpts)))
         f0 = f.copy()
         st.update(f0=f0, qpts=qpts, rpts=rpts, Cphi=Cphi)
+        for pdt in pre_dts:
+            g = np.empty(f.shape, dtype=object)
+            for idx in np.ndindex(*f.shape):
+                g[idx] = K(Fr(1 + idx[0] + 2 * idx[1], 7))
+            pa.step(g, K(pdt), phi, K(vpar))
         pa.step(f, K(dt), phi, K(vpar))
         return f
 
@@ -249,7 +255,8 @@ def work(item):
 
 def float_replay(m, adv, item):
     """real float code vs. an independent float implementation (scipy-free: the exact oracle evaluated on a random f)"""
-    path, qdeg, rdeg, nq, ncr, pot, param, dt, scheme, nul, _ = item
+    path, qdeg, rdeg, nq, ncr, pot, param, dt, scheme, nul = item[:10]
+    pre_dts = item[11] if len(item) > 11 else ()
     numenv.disable()
     try:
         qbreaks, rbreaks = spaces(path, nq, ncr, rdeg)
@@ -277,6 +284,9 @@ def float_replay(m, adv, item):
         rng = np.random.RandomState(9)
         f = rng.rand(len(qpf), len(rpf)) + 0.5
         fin = f.copy()
+        for pdt in pre_dts:
+            g = np.array([[(1 + i + 2 * j) / 7.0 for j in range(len(rpf))] for i in range(len(qpf))])
+            pa.step(g, float(pdt), phi, 0.5)
         pa.step(f, float(dt), phi, 0.5)
         # reference
         it = m['si'].SplineInterpolator2D(qs, rs)
@@ -388,6 +398,15 @@ def main():
     # implicit scheme with a coarse tolerance on a potential whose theta rows converge at different speeds
     items.append(('cu', 3, 3, 6, 2, 'wave_local', Fr(3), Fr(1, 2), 'impl@1/20', True, None))
     items.append(('nu', 2, 3, 3, 2, 'generic', Fr(1), Fr(-1, 2), 'expl', False, None))
+    # implicit scheme, generic (theta- and r-dependent) potential, theta degree != r degree; tolerance coarse enough for the exact
+    # iteration to stop after its first passes (the iterates' size multiplies with every pass)
+    items.append(('nu', 4, 3, 5, 2, 'generic', Fr(1, 2), Fr(1, 8), 'impl@1/2', True, None))
+    items.append(('nu', 2, 3, 4, 2, 'generic', Fr(1, 2), Fr(-1, 8), 'impl@1/2', False, None))
+    # history: earlier steps on the same object (work buffers are reused); the measured step has feet/predictors outside the domain
+    items.append(('cu', 3, 3, 4, 2, 'wave', Fr(2), Fr(2), 'expl', True, None, (Fr(1),)))
+    items.append(('cu', 3, 3, 4, 2, 'wave', Fr(2), Fr(-2), 'expl', False, None, (Fr(-1, 2), Fr(1))))
+    items.append(('cu', 3, 3, 4, 2, 'generic', Fr(1), Fr(1, 2), 'expl', True, None, (Fr(1, 8),)))
+    items.append(('cu', 3, 3, 6, 2, 'wave_local', Fr(3), Fr(1, 2), 'impl@1/20', True, None, (Fr(1, 4),)))
     if not quick:
         for dt in (Fr(1, 8), Fr(-3, 4), Fr(3)):
             for nul in (True, False):
